@@ -24,10 +24,15 @@
 (*   CrcBitwise(P, data, init, final), CrcTabled(P, data, init, final)       *)
 (*                                 final xor register(data, from init)       *)
 (*   CrcWidth(P)                   W = bit length of P                       *)
-(*   CrcBackByte(P, T, reg, byte)  register BEFORE the byte step that gave   *)
-(*                                 reg (needs W >= 8 and bit W-1 of P set:   *)
-(*                                 then the top bytes of T are all distinct) *)
-(*   CrcRegBack(P, T, data, reg)   register before processing all of data    *)
+(*   CrcBackBit(P, reg, bit), CrcBackByteBitwise(P, reg, byte)               *)
+(*                                 register BEFORE the bit / byte step that  *)
+(*                                 gave reg (needs bit W-1 of P set)         *)
+(*   CrcBackByte(P, T, reg, byte)  the same for a byte by table lookup       *)
+(*                                 (needs W >= 8 and bit W-1 of P set: then  *)
+(*                                 the top bytes of T are all distinct)      *)
+(*   CrcRegBack(P, data, reg)      register before processing all of data    *)
+(*                                 (bitwise); CrcRegBackTabled(P, T, data,   *)
+(*                                 reg) the same through CrcBackByte         *)
 (*   Crc32Poly, Crc32Table, Crc32(data)  zlib CRC-32, a W32 word <<lo, hi>>  *)
 (*   Crc32Patch(data, pos, target) data with bytes pos+1..pos+4 (1-based)    *)
 (*                                 replaced so that Crc32 = target           *)
@@ -104,26 +109,55 @@ RECURSIVE CrcWidthR(_,_)
 CrcWidthR(P, i) == IF i = 0 THEN 0 ELSE IF P[i] # 0 THEN (16 * (i-1)) + CrcBitLen(P[i], 0) ELSE CrcWidthR(P, i-1)
 CrcWidth(P) == CrcWidthR(P, Len(P))
 
-\* ---- one byte step backwards -------------------------------------------------
-\* bits W-8..W-1 of x (W >= 8)
-CrcTopByte(x, W) ==
-  LET q == (W - 8) \div 16  r == (W - 8) % 16
-  IN IF r = 0 THEN x[q+1] % 256
-     ELSE ((x[q+1] \div P2[r+1]) + ((LimbOr0(x, q+2) % P2[r+1]) * P2[17-r])) % 256
-\* reg = (before >> 8) xor T[idx], idx = (before xor byte) & 255.  before >> 8 has its top byte
-\* zero, so the top byte of reg is the top byte of T[idx]; when bit W-1 of P is set these 256 top
-\* bytes are pairwise different and idx is determined; then before = ((reg xor T[idx]) << 8) | (idx xor byte).
+\* ---- one step backwards ---------------------------------------------------------
+\* Needs bit W-1 of P set (W = CrcWidth(P)) and registers < 2^W.
+\* One bit: the shifted register has bit W-1 clear, so bit W-1 of the register AFTER the step tells
+\* whether P was xored in, i.e. the feedback fb = (lowest bit before) xor (message bit).
+\* before = ((after xor (fb ? P : 0)) << 1) | (fb xor bit).
+RECURSIVE CrcShl1R(_,_,_)
+CrcShl1R(a, i, acc) ==
+  IF i > Len(a) THEN acc
+  ELSE CrcShl1R(a, i+1, Append(acc, ((a[i] % 32768) * 2) + (IF i > 1 THEN a[i-1] \div 32768 ELSE 0)))
+CrcShl1(a) == IF Len(a) = 1 THEN <<(a[1] % 32768) * 2>>
+              ELSE IF Len(a) = 2 THEN <<(a[1] % 32768) * 2, ((a[2] % 32768) * 2) + (a[1] \div 32768)>>
+              ELSE CrcShl1R(a, 1, <<>>)                  \* modulo 2^(16 Len(a))
+CrcBackBitW(P, W, reg, bit) ==
+  LET fb == WBit(reg, W - 1)
+      s  == CrcShl1(IF fb = 1 THEN CrcXor(reg, P) ELSE reg)
+  IN [s EXCEPT ![1] = @ + (fb ^^ bit)]
+CrcBackBit(P, reg, bit) == CrcBackBitW(P, CrcWidth(P), reg, bit)
+RECURSIVE CrcBackByteR(_,_,_,_,_)
+CrcBackByteR(P, W, reg, byte, i) ==                      \* the bit fed last (bit 7) is undone first
+  IF i < 0 THEN reg ELSE CrcBackByteR(P, W, CrcBackBitW(P, W, reg, (byte \div P2[i+1]) % 2), byte, i-1)
+CrcBackByteBitwise(P, reg, byte) == CrcBackByteR(P, CrcWidth(P), reg, byte, 7)
+
+\* One byte with the table (W >= 8).  reg = (before >> 8) xor T[idx], idx = (before xor byte) & 255.
+\* before >> 8 has its top byte (bits W-8..W-1) zero, so the top byte of reg is the top byte of T[idx];
+\* when bit W-1 of P is set these 256 top bytes are pairwise different and idx is determined; then
+\* before = ((reg xor T[idx]) << 8) | (idx xor byte).   (ST_CrcThm: equals CrcBackByteBitwise.)
+CrcTopByteQR(x, q, r) ==                                 \* bits 16q+r .. 16q+r+7 of x
+  IF r = 0 THEN x[q+1] % 256
+  ELSE ((x[q+1] \div P2[r+1]) + ((LimbOr0(x, q+2) % P2[r+1]) * P2[17-r])) % 256
+CrcTopByte(x, W) == CrcTopByteQR(x, (W - 8) \div 16, (W - 8) % 16)
 CrcBackByte(P, T, reg, byte) ==
   LET W   == CrcWidth(P)
-      top == CrcTopByte(reg, W)
-      idx == CHOOSE i \in 0..255 : CrcTopByte(T[i+1], W) = top
+      q   == (W - 8) \div 16
+      r   == (W - 8) % 16
+      top == CrcTopByteQR(reg, q, r)
+      idx == CHOOSE i \in 0..255 : CrcTopByteQR(T[i+1], q, r) = top
       s   == CrcShl8(CrcXor(reg, T[idx+1]))
   IN [s EXCEPT ![1] = @ + (idx ^^ byte)]
 
+\* register before processing all of data, given the register after (last byte undone first; bitwise,
+\* which in TLC is ~10 times cheaper than the table search of CrcBackByte)
 RECURSIVE CrcRegBackR(_,_,_,_,_)
-CrcRegBackR(P, T, data, i, reg) ==
-  IF i = 0 THEN reg ELSE CrcRegBackR(P, T, data, i-1, CrcBackByte(P, T, reg, data[i]))
-CrcRegBack(P, T, data, reg) == CrcRegBackR(P, T, data, Len(data), reg)      \* last byte undone first
+CrcRegBackR(P, W, data, i, reg) ==
+  IF i = 0 THEN reg ELSE CrcRegBackR(P, W, data, i-1, CrcBackByteR(P, W, reg, data[i], 7))
+CrcRegBack(P, data, reg) == CrcRegBackR(P, CrcWidth(P), data, Len(data), reg)
+RECURSIVE CrcRegBackTabledR(_,_,_,_,_)
+CrcRegBackTabledR(P, T, data, i, reg) ==
+  IF i = 0 THEN reg ELSE CrcRegBackTabledR(P, T, data, i-1, CrcBackByte(P, T, reg, data[i]))
+CrcRegBackTabled(P, T, data, reg) == CrcRegBackTabledR(P, T, data, Len(data), reg)
 
 \* ---- CRC-32 (ISO-HDLC, zlib, PNG): poly 0xEDB88320, init = final = 0xFFFFFFFF ----
 Crc32Poly  == W32(60856, 33568)            \* 0xEDB8, 0x8320
@@ -141,8 +175,8 @@ Crc32Patch(data, pos, target) ==
   LET head == SubSeq(data, 1, pos)
       tail == SubSeq(data, pos+5, Len(data))
       a == CrcRegTabled(Crc32Table, head, Crc32Ones)
-      b == CrcRegBack(Crc32Poly, Crc32Table, tail, WXor(target, Crc32Ones))
-      c == CrcRegBack(Crc32Poly, Crc32Table, <<0,0,0,0>>, b)
+      b == CrcRegBack(Crc32Poly, tail, WXor(target, Crc32Ones))
+      c == CrcRegBack(Crc32Poly, <<0,0,0,0>>, b)
   IN head \o WToLE(WXor(a, c)) \o tail
 
 FixOk(data, out, pos, target) ==
